@@ -40,9 +40,9 @@ pub struct Slot {
 
 fn cls_only<T>(r: Result<VfsResult<T>, ()>) -> String {
     match r {
-        Err(()) => "panic".into(),
-        Ok(Err(_)) => "err".into(),
-        Ok(Ok(_)) => "ok".into(),
+        Err(()) => "[\"panic\"]".into(),
+        Ok(Err(_)) => "[\"err\"]".into(),
+        Ok(Ok(_)) => "[\"ok\"]".into(),
     }
 }
 
@@ -55,15 +55,15 @@ pub fn run_call(root: &VfsPath, cx: &Conc, call: &Call, slot: &mut Slot) -> Stri
         "remove_file" => cls_only(guard(|| p.remove_file())),
         "remove_dir" => cls_only(guard(|| p.remove_dir())),
         "cf_open" | "ap_open" => match guard(|| if call.op == "cf_open" { p.create_file() } else { p.append_file() }) {
-            Err(()) => "panic".into(),
-            Ok(Err(_)) => "err".into(),
+            Err(()) => "[\"panic\"]".into(),
+            Ok(Err(_)) => "[\"err\"]".into(),
             Ok(Ok(h)) => {
                 slot.h = Some(h);
-                "ok".into()
+                "[\"ok\"]".into()
             }
         },
         "close" => match slot.h.take() {
-            None => "nohandle".into(),
+            None => "[\"nohandle\"]".into(),
             Some(mut h) => {
                 let bytes = conc_bytes(&call.c, cx.b);
                 match guard(move || {
@@ -71,26 +71,26 @@ pub fn run_call(root: &VfsPath, cx: &Conc, call: &Call, slot: &mut Slot) -> Stri
                     drop(h);
                     r
                 }) {
-                    Err(()) => "panic".into(),
-                    Ok(Err(_)) => "err".into(),
-                    Ok(Ok(())) => "ok".into(),
+                    Err(()) => "[\"panic\"]".into(),
+                    Ok(Err(_)) => "[\"err\"]".into(),
+                    Ok(Ok(())) => "[\"ok\"]".into(),
                 }
             }
         },
         "exists" => match guard(|| p.exists()) {
-            Err(()) => "panic".into(),
-            Ok(Err(_)) => "err".into(),
-            Ok(Ok(b)) => format!("ok:{b}"),
+            Err(()) => "[\"panic\"]".into(),
+            Ok(Err(_)) => "[\"err\"]".into(),
+            Ok(Ok(b)) => json!(["ok", b]).to_string(),
         },
         "metadata" => match guard(|| p.metadata()) {
-            Err(()) => "panic".into(),
-            Ok(Err(_)) => "err".into(),
-            Ok(Ok(m)) => format!("ok:{}:{}", if m.file_type == VfsFileType::Directory { "dir" } else { "file" }, abs_len(m.len, cx.b)),
+            Err(()) => "[\"panic\"]".into(),
+            Ok(Err(_)) => "[\"err\"]".into(),
+            Ok(Ok(m)) => json!(["ok", if m.file_type == VfsFileType::Directory { "dir" } else { "file" }, abs_len(m.len, cx.b)]).to_string(),
         },
         "read_dir" => match guard(|| p.read_dir().map(|it| it.map(|x| cx.names.abs_name(&x.filename())).collect::<BTreeSet<_>>())) {
-            Err(()) => "panic".into(),
-            Ok(Err(_)) => "err".into(),
-            Ok(Ok(s)) => format!("ok:{:?}", s),
+            Err(()) => "[\"panic\"]".into(),
+            Ok(Err(_)) => "[\"err\"]".into(),
+            Ok(Ok(s)) => json!(["ok", s.into_iter().collect::<Vec<_>>()]).to_string(),
         },
         "read" => match guard(|| -> VfsResult<Vec<u8>> {
             let mut h = p.open_file()?;
@@ -98,9 +98,9 @@ pub fn run_call(root: &VfsPath, cx: &Conc, call: &Call, slot: &mut Slot) -> Stri
             h.read_to_end(&mut b).map_err(VfsError::from)?;
             Ok(b)
         }) {
-            Err(()) => "panic".into(),
-            Ok(Err(_)) => "err".into(),
-            Ok(Ok(b)) => format!("ok:{:?}", abs_bytes(&b, cx.b)),
+            Err(()) => "[\"panic\"]".into(),
+            Ok(Err(_)) => "[\"err\"]".into(),
+            Ok(Ok(b)) => json!(["ok", abs_bytes(&b, cx.b)]).to_string(),
         },
         other => panic!("unknown concurrent call {other}"),
     }
@@ -245,7 +245,7 @@ impl Pool {
                         }
                     });
                     if body.is_err() {
-                        w.results.lock().unwrap()[t].push("harness-panic".into());
+                        w.results.lock().unwrap()[t].push("[\"harness-panic\"]".into());
                     }
                     verif_hooks::uninstall();
                     let coop = w.coop.clone();
@@ -436,7 +436,7 @@ pub fn sequential_outcomes(mk: &Mk, cx: &Conc, universe: &[Vec<String>], progs: 
         let fin = snapshot(&w.root, cx, universe);
         let key = format!("{:?}|{}", res, fin);
         if seen.insert(key) {
-            out.push(json!({"order":order,"results":res,"final":fin}));
+            out.push(json!({"order":order,"results":crate::concrun::parse_results(&res),"final":fin}));
         }
     }
     out
